@@ -89,9 +89,11 @@ def valueLines : Bytes → Bytes → List Bytes
   | [], cur => [cur]
   | c :: r, cur => if c == 10 then cur :: valueLines r [] else valueLines r (cur ++ [c])
 
-/-- The logical line of a folded value as mdsort documents it: the lines joined,
-newlines dropped and the TABs that start a line dropped; then encoded words
-decoded (C-string view). -/
+/-- The logical line of a folded value: the lines joined, newlines dropped and the TABs
+that start a line dropped (a leading SPACE is kept); then encoded words decoded (C-string
+view).  (audit au2) mdsort.conf(5) says nothing about folding: this is the behaviour of
+`unfoldheader` written line-wise, NOT RFC 5322 unfolding, which removes only the line break -
+`a\n\tb` is `ab` here and `a\tb` for a mail reader (example beside `C10_unfold`). -/
 def unfold (v : Bytes) : Bytes :=
   if v.contains 10 then ((valueLines v []).map fun l => l.dropWhile (fun c => c == 9)).flatten else v
 
